@@ -317,4 +317,33 @@ def add_on_demand(rng, cfg, ops, race=True):
                     'waiting': rng.random() < 0.7,
                     'place': rng.choice(['now', {'dt': rng.choice(
                         [0.05, 0.2, 0.4, 1.0])}])})
+    if race and rng.random() < 0.35:
+        # two overlapping starts: the only worker of the first start dies
+        # while that start sleeps in its warm-up (the watcher falls back to
+        # 'stopped'), the next socket event starts it again, and a stop /
+        # set / decr lands while both starts are asleep
+        wc['opts']['warmup_delay'] = rng.choice([1.7, 1.7, 3.1])
+        wc['opts']['numprocesses'] = rng.choice([2, 3])
+        tail = [{'op': 'connect', 's': 0, 'place': 'now'},
+                {'op': 'wait', 'kind': 'time',
+                 'n': rng.choice([1.1, 1.3, 2.0])},
+                {'op': 'die', 'w': wi, 'j': 0, 'how': 'kill', 'place': 'now'},
+                {'op': 'connect', 's': 0, 'place': 'now'},
+                {'op': 'wait', 'kind': 'time',
+                 'n': rng.choice([1.0, 1.1, 2.0, 2.2])},
+                {'op': 'req', 'cmd': rng.choice(['stop', 'stop', 'decr',
+                                                 'set']),
+                 'w': rng.choice([wi, wi, None]), 'props': {},
+                 'waiting': True,
+                 'place': rng.choice(['now', {'dt': 0.01}, {'dt': 0.4}])},
+                {'op': 'wait', 'kind': 'time', 'n': rng.choice([2, 5])}]
+        r = tail[5]
+        if r['cmd'] == 'set':
+            r['w'] = wi
+            r['props'] = {'options': {'numprocesses': rng.choice([0, 1])}}
+        elif r['cmd'] == 'decr':
+            r['w'] = wi
+            r['props'] = {'nb': rng.choice([1, 2])}
+        pos = rng.randrange(len(ops) + 1)
+        ops[pos:pos] = tail
     return wi
